@@ -4,6 +4,7 @@
 set -u
 ID="${1:?property id}"
 MODE="${2:-quick}"
+ORIG_PWD="$PWD"
 export CARGO_NET_OFFLINE=true
 mkdir -p /verif/target /verif/evidence
 cd /verif/harness || exit 2
@@ -32,6 +33,21 @@ case "$MODE" in
     [ $rc -ne 0 ] && exit $rc
     exec /verif/checks/fuzz_campaign.sh "$ID" ;;
   replay)
-    exec /verif/target/debug/vcheck "$ID" --replay "${3:?replay file}" ;;
+    FILE="${3:?replay file}"
+    case "$FILE" in /*) ;; *) FILE="$ORIG_PWD/$FILE" ;; esac
+    if grep -q '"asan": true' "$FILE" 2>/dev/null; then
+      # a memory error only AddressSanitizer sees: replay in the instrumented libFuzzer binary
+      part=$(python3 -c "import json,sys;print(json.load(open(sys.argv[1]))['part'])" "$FILE")
+      (cd /verif/harness && RUSTFLAGS="--cfg y_crdt_y_crdt_verif" cargo +nightly fuzz build prop --fuzz-dir /verif/fuzz --target-dir /verif/target/fuzz >/dev/null 2>&1) || { echo "INCONCLUSIVE property=$ID the instrumented target does not build"; exit 2; }
+      tmp=/verif/target/asan-replay-$$.json
+      python3 -c "import json,sys;json.dump(json.load(open(sys.argv[1]))['case'],open(sys.argv[2],'w'))" "$FILE" "$tmp"
+      rep=$(ASAN_OPTIONS=detect_leaks=0:detect_odr_violation=0 VH_FUZZ=$ID:$part /verif/target/fuzz/x86_64-unknown-linux-gnu/release/prop "$tmp" 2>&1); rm -f "$tmp"
+      if echo "$rep" | grep -q "ERROR: AddressSanitizer\|FUZZ-FAILURE"; then
+        echo "$rep" | grep -m3 "ERROR: AddressSanitizer\|SUMMARY\|FUZZ-FAILURE"
+        echo "VIOLATION property=$ID replay=$FILE"; exit 1
+      fi
+      echo "replay passes (AddressSanitizer build): $FILE"; exit 0
+    fi
+    exec /verif/target/debug/vcheck "$ID" --replay "$FILE" ;;
   *) echo "unknown mode $MODE"; exit 2 ;;
 esac
